@@ -20,7 +20,7 @@ def keptKeys (r : RegState) (id : Nat) : List Nat :=
 /-- copy record `(id, k)` (if any) from `r` into `rs` -/
 def collectRec (r : RegState) (id : Nat) (rs : List ((Nat × Nat) × Rec)) (k : Nat) : List ((Nat × Nat) × Rec) :=
   match find? r.recs (id, k) with
-  | some rc => insert rs (id, k) rc
+  | some rc => insertRec rs (id, k) rc
   | none => rs
 
 /-- the counters `InitGenesis` recomputes from the exported records -/
